@@ -73,7 +73,21 @@ def run_property(mod, prop, tier, seed, t0, only=None):
     engine._worker_init(src_root, SPEC_PATHS)       # also in the parent: unit enumeration reads the program
     units = mod.units(tier)
     names = [n for n in units if only is None or only in n]
-    results = engine.run_units(mod.__name__, names, tier, opts, SPEC_PATHS, src_root)
+    # phase 1: units that prove call-site contracts; a contract whose proof does not go through is switched off
+    # (callee inlined) for phase 2, so that only property-level obligations decide
+    phase1 = [n for n in names if units[n].proves]
+    phase2 = [n for n in names if not units[n].proves]
+    os.environ.pop("PYVC_INLINE", None)
+    results = engine.run_units(mod.__name__, phase1, tier, opts, SPEC_PATHS, src_root) if phase1 else []
+    inlined = set()
+    for r in results:
+        bad = r["error"] or r["oos"] or any(o["status"] != "discharged" for o in r["obligations"])
+        if bad:
+            inlined.add(units[r["unit"]].proves)
+    if inlined:
+        os.environ["PYVC_INLINE"] = ",".join(sorted(inlined))
+    results = results + (engine.run_units(mod.__name__, phase2, tier, opts, SPEC_PATHS, src_root) if phase2 else [])
+    os.environ.pop("PYVC_INLINE", None)
     checker_errors = []
     violations = []
     known_lines = []
@@ -270,6 +284,7 @@ def run_property(mod, prop, tier, seed, t0, only=None):
         "by_backend": by_backend, "solver_time_s": round(solver_time, 2), "paths": paths,
         "units": len(names), "refuted": len(refuted), "refuted_known_findings": n_known, "unknown": len(unknown),
         "out_of_subset_units": [f"{u}: {why}" for u, why in oos_units],
+        "contracts_inlined_after_failed_proof": sorted(inlined),
         "canary": {"refuted": canary_ok, "replayed": canary_replayed},
         "executor_crosscheck": {"paths_replayed_natively": witness_checked, "mismatches": witness_mismatch},
         "bounded_native": {"evaluations": bounded_evals, "failures": len(bounded_fail),
@@ -295,6 +310,8 @@ def run_property(mod, prop, tier, seed, t0, only=None):
     print(f"{prop} [{tier}] units={len(names)} paths={paths} obligations={len(real_obs)} discharged={discharged} "
           f"refuted={len(refuted)} unknown={len(unknown)} oos={len(oos_units)} native_evals={bounded_evals} "
           f"witnesses={witness_checked} wall={ev['wall_s']}s")
+    if inlined:
+        print("  helper contracts not proved on this tree, callees inlined: " + ", ".join(sorted(inlined)))
     slow = sorted(results, key=lambda r: -r.get("seconds", 0))[:3]
     print("  slowest units: " + ", ".join(f"{r['unit']} {r.get('seconds')}s/{r['paths']}p" for r in slow))
     for u, why in oos_units:
